@@ -64,12 +64,16 @@ func runC02(r *Run) {
 		return
 	}
 	s := sc.s
+	s.LagPct = []int{0, 0, 8, 20}[r.T.Intn(4, "lag-pct")] // F-lag: a slow caller parked mid-operation while time passes (conservation does not depend on instants)
 	sc.start()
 	s.OnStable = func() { sc.conservation("stable point at t=" + fmtDur(s.Now())) }
 	s.OnDrain = sc.drainHeld
 	s.AfterDrain = sc.afterDrain
 	s.Run()
 	r.VirtNs = s.Now()
+	if s.Lags > 0 {
+		r.Fault("F-lag")
+	}
 	sc.commonProbes()
 }
 
